@@ -1,0 +1,68 @@
+//! Verification hooks (cargo feature `verif`).
+//!
+//! Add-only re-exports and thin wrappers that make crate-private items reachable
+//! from an out-of-tree verification harness. Nothing here changes behaviour; with
+//! the feature off this module is not compiled at all.
+
+pub use crate::{
+    analyzing::private_recursion::PrivateRecursion,
+    breaking::fol::sigma_0::ht::{
+        break_equivalences_annotated_formula, break_equivalences_formula,
+        break_equivalences_theory,
+    },
+    command_line::arguments::{
+        Decomposition, FormulaRepresentation, SimplificationPortfolio, SimplificationStrategy,
+    },
+    simplifying::fol::sigma_0::{classic::CLASSIC, ht::HT, intuitionistic::INTUITIONISTIC},
+    verifying::{
+        outline::{GeneralLemma, ProofOutline, ProofOutlineError, ProofOutlineWarning},
+        problem::{AnnotatedFormula, Interpretation, Problem, Role},
+        task::{
+            Task,
+            external_equivalence::{
+                ExternalEquivalenceTask, ExternalEquivalenceTaskError,
+                ExternalEquivalenceTaskWarning,
+            },
+            strong_equivalence::StrongEquivalenceTask,
+        },
+    },
+};
+
+use crate::syntax_tree::{asp::mini_gringo as asp, fol::sigma_0 as fol};
+
+/// `tau_star::tau_star_rule` (crate-private): translate one rule with the given global variables.
+pub fn tau_star_rule(rule: &asp::Rule, globals: &[String]) -> fol::Formula {
+    crate::translating::formula_representation::tau_star::tau_star_rule(rule, globals)
+}
+
+/// `tau_star::choose_fresh_global_variables` (crate-private).
+pub fn choose_fresh_global_variables(program: &asp::Program) -> Vec<String> {
+    crate::translating::formula_representation::tau_star::choose_fresh_global_variables(program)
+}
+
+/// `natural::natural_rule` (crate-private): `None` if the rule is not regular.
+pub fn natural_rule(rule: &asp::Rule) -> Option<fol::Formula> {
+    crate::translating::formula_representation::natural::natural_rule(rule)
+}
+
+/// Names of the rewrites in the three portfolios, in portfolio order.
+pub const INTUITIONISTIC_NAMES: &[&str] = &[
+    "evaluate_comparisons",
+    "apply_negation_definition_inverse",
+    "apply_reverse_implication_definition",
+    "apply_equivalence_definition_inverse",
+    "remove_identities",
+    "remove_annihilations",
+    "remove_idempotences",
+    "remove_orphaned_variables",
+    "remove_empty_quantifications",
+    "join_nested_quantifiers",
+];
+
+pub const CLASSIC_NAMES: &[&str] = &[
+    "remove_double_negation",
+    "substitute_defined_variables",
+    "restrict_quantifier_domain",
+    "extend_quantifier_scope",
+    "simplify_transitive_equality",
+];
